@@ -38,7 +38,7 @@ def bound_text(tier, seed):
                 "inlet sets <=2 (<=1 for 4-cell strips), every river start; 2x3 and 3x3 with <=2 deviations from the converging field; "
                 "1x8, 2x5, 4x4 with <=1 deviation from 3 base fields")
     return ("all grids with <=5 cells over 10 codes (inlet sets <=2); all 2x3/3x2 grids over the reduced alphabet (inlet sets <=1); "
-            "all 3x3 grids over {in-grid dirs, sink} (no inlets, every outlet); 1x8, 8x1, 2x5, 4x4 with <=2 deviations from 3 base fields")
+            "all 3x3 grids over {in-grid dirs, sink} (relations and areas only, no inlets, every outlet); 1x8, 8x1, 2x5, 4x4 with <=2 deviations from 3 base fields")
 
 
 def units(tier, seed):
@@ -68,7 +68,8 @@ def units(tier, seed):
             us.append(u)
         for u in _flow.shape_units([((3, 3), "ingrid")], seed, target=6000):
             u["maxinlets"] = 0
-            us.append(u)
+            u["light"] = True       # relations + areas only (3 million grids): flow paths and rivers are
+            us.append(u)            # covered on all grids <= 6 cells and on the deviation families
         for shape in ((1, 8), (8, 1), (2, 5), (4, 4)):
             for b in ("east", "converge", "snake"):
                 nparts = 8 if shape == (4, 4) else 4
@@ -112,7 +113,7 @@ def inlet_sets(ntot, outlet, maxinlets):
             yield list(s)
 
 
-def check_grid(ctx, nrows, ncols, codes, maxinlets, default_nval=False):
+def check_grid(ctx, nrows, ncols, codes, maxinlets, default_nval=False, light=False):
     from hydrodiy.gis.grid import delineate_river
     ntot = nrows * ncols
     m = FlowModel(nrows, ncols, codes)
@@ -196,6 +197,8 @@ def check_grid(ctx, nrows, ncols, codes, maxinlets, default_nval=False):
                 continue
             if not set(area) <= set(filled) or len(set(filled)) != len(filled) or any(v < 0 or v >= ntot for v in filled):
                 ctx.violation("delineate_area:filled", case, "filled area %s does not contain area %s (or has duplicates/invalid cells)" % (filled, area))
+            if light:
+                continue
             # flow path lengths
             try:
                 ca.compute_flowpathlengths()
@@ -225,6 +228,8 @@ def check_grid(ctx, nrows, ncols, codes, maxinlets, default_nval=False):
                                       c, outlet, fp[i, 1], fp[i, 2], outlet, explen, no, nd),
                                   observed=fp[i].tolist(), expected=[c, outlet, explen])
 
+    if light:
+        return
     # ---- river traces
     xll, yll, csz = 10.0, -4.0, 2.0
     for start in range(ntot):
@@ -285,7 +290,7 @@ def run_unit(unit, ctx):
             continue
         if first:
             ctx.case(False, n=0, sample={"shape": [nrows, ncols], "codes": codes, "maxinlets": unit["maxinlets"]})
-        check_grid(ctx, nrows, ncols, codes, unit["maxinlets"], default_nval=first)
+        check_grid(ctx, nrows, ncols, codes, unit["maxinlets"], default_nval=first, light=unit.get("light", False))
         first = False
         ctx.sup.end()
 
